@@ -368,6 +368,97 @@ impl UserGtState {
     }
 }
 
+/// Verification-only thin wrappers around the crate-private user / referral functions (no logic).
+/// Compiled only with `--cfg gmsol_verif`.
+#[cfg(gmsol_verif)]
+pub mod verif_hooks_g6 {
+    use super::*;
+
+    /// Calls `UserHeader::init`.
+    pub fn user_init(user: &mut UserHeader, store: &Pubkey, owner: &Pubkey, bump: u8) -> Result<()> {
+        user.init(store, owner, bump)
+    }
+
+    /// Calls `Referral::set_code` on the user's referral.
+    pub fn set_code(user: &mut UserHeader, code: &Pubkey) -> Result<()> {
+        user.referral.set_code(code)
+    }
+
+    /// Calls `Referral::set_referrer` on the user's referral.
+    pub fn set_referrer(user: &mut UserHeader, referrer_user: &mut UserHeader) -> Result<()> {
+        user.referral.set_referrer(referrer_user)
+    }
+
+    /// Calls `UserHeader::unchecked_transfer_code`.
+    pub fn transfer_code(
+        user: &UserHeader,
+        code: &mut ReferralCodeV2,
+        receiver_user: &UserHeader,
+    ) -> Result<()> {
+        user.unchecked_transfer_code(code, receiver_user)
+    }
+
+    /// Calls `UserHeader::unchecked_complete_code_transfer`.
+    pub fn complete_code_transfer(
+        user: &mut UserHeader,
+        code: &mut ReferralCodeV2,
+        receiver_user: &mut UserHeader,
+    ) -> Result<()> {
+        user.unchecked_complete_code_transfer(code, receiver_user)
+    }
+
+    /// Calls `ReferralCodeV2::init`.
+    pub fn code_init(
+        code: &mut ReferralCodeV2,
+        bump: u8,
+        bytes: ReferralCodeBytes,
+        store: &Pubkey,
+        owner: &Pubkey,
+    ) {
+        code.init(bump, bytes, store, owner)
+    }
+
+    /// Calls `ReferralCodeV2::set_next_owner`.
+    pub fn set_next_owner(code: &mut ReferralCodeV2, next_owner: &Pubkey) -> Result<()> {
+        code.set_next_owner(next_owner)
+    }
+
+    /// Reads the crate-private `owner` field.
+    pub fn owner(user: &UserHeader) -> Pubkey {
+        user.owner
+    }
+
+    /// Reads the crate-private `store` field.
+    pub fn store(user: &UserHeader) -> Pubkey {
+        user.store
+    }
+
+    /// Reads the raw `referral.referrer` field.
+    pub fn referrer_raw(user: &UserHeader) -> Pubkey {
+        user.referral.referrer
+    }
+
+    /// Reads the raw `referral.code` field.
+    pub fn code_raw(user: &UserHeader) -> Pubkey {
+        user.referral.code
+    }
+
+    /// Reads `referral.referee_count`.
+    pub fn referee_count(user: &UserHeader) -> u128 {
+        user.referral.referee_count
+    }
+
+    /// Reads `gt.total_minted`.
+    pub fn gt_total_minted(user: &UserHeader) -> u64 {
+        user.gt.total_minted
+    }
+
+    /// Reads `gt.last_minted_at`.
+    pub fn gt_last_minted_at(user: &UserHeader) -> i64 {
+        user.gt.last_minted_at
+    }
+}
+
 #[cfg(test)]
 mod tests {
     use super::*;
